@@ -126,6 +126,32 @@ pub fn vals(n: usize, salt: usize, variant: u64) -> Vec<f64> {
         .collect()
 }
 
+/// Positive valuations whose products (kind 0) or sums (kind 1) overflow: every term of every sum
+/// is non-negative, so every evaluation order gives the same infinity (no cancellation), and a
+/// reference value that is infinite is *the* specified result. `huge`^2 overflows, `huge` does
+/// not; two `big` overflow when added, one does not.
+pub fn vals_overflow(n: usize, salt: usize, kind: u64) -> Vec<f64> {
+    let (huge, big) = if crate::common::IS_F32 { (1.0e30, 3.0e38) } else { (1.0e200, 1.0e308) };
+    (0..n)
+        .map(|i| {
+            if kind == 0 {
+                // operands of different salts carry `huge` at different residues, so that some products
+                // are huge*huge, some huge*small and some small*small
+                match (i + salt) % 4 {
+                    0 => huge,
+                    1 => 1.0 + (i % 3) as f64,
+                    2 => 0.5,
+                    _ => if salt % 2 == 0 { huge } else { 2.0 },
+                }
+            } else if salt == 0 {
+                if i % 5 == 4 { 1.0 } else { big }
+            } else {
+                1.0
+            }
+        })
+        .collect()
+}
+
 /// Like `vals`, with every third element negated and one zero when n >= 4 (relu/neg coverage).
 pub fn vals_signed(n: usize, salt: usize, variant: u64) -> Vec<f64> {
     let mut v = vals(n, salt, variant);
